@@ -50,6 +50,9 @@ func Gen(seed int64, idx int, prof string) Case {
 		if idx%16 == 5 {
 			theme = "deferred-plus-backoff"
 		}
+		if idx%16 == 9 {
+			theme = "transfer-deferred-then-batch-deferred"
+		}
 	}
 	n := 1 + r.Intn(12)
 	if r.Intn(10) < 4 {
@@ -335,6 +338,32 @@ func Gen(seed int64, idx int, prof string) Case {
 			if i == 1 || r.Intn(2) == 0 {
 				c.Adapter[c.Objs[i].Oid] = []string{"retry"}
 			}
+		}
+	case "transfer-deferred-then-batch-deferred":
+		// an object's transfer is deferred by Retry-After; the batch call that re-submits it is then itself
+		// answered 429 with a (longer) Retry-After, which has to be honoured as well
+		c.Upload = r.Intn(3) == 0
+		c.Objs = c.Objs[:0]
+		k := 1 + r.Intn(3)
+		for i := 0; i < k; i++ {
+			c.Objs = append(c.Objs, Obj{Oid: randOid(r), Size: int64(1 + r.Intn(5000)), Adds: 1})
+		}
+		c.AddOrder = nil
+		for i := range c.Objs {
+			c.AddOrder = append(c.AddOrder, i)
+		}
+		c.BatchSize = k + r.Intn(2)
+		c.MaxRetries = 3 + r.Intn(2)
+		c.MaxDelay = []int{1, -1}[r.Intn(2)]
+		c.AddGapUs = 0
+		c.Watchers = r.Intn(2)
+		c.SlowWatch = false
+		c.ObjBatch = map[string][]string{}
+		c.ExtraUnknown = map[int]string{}
+		c.Adapter = map[string][]string{c.Objs[0].Oid: {"later:1"}}
+		c.BatchCalls = []string{"ok", "429:2"}
+		if r.Intn(3) == 0 {
+			c.BatchCalls = []string{"ok", "429:2", "429:1"}
 		}
 	case "adapter-begin-error":
 		c.BeginError = true
